@@ -46,6 +46,20 @@ fn main() {
             println!("T-{} {name} n<={nmax} tables={total} valid={valid} accepted={accepted} rejected={} distinct_end_offsets={ends} nontrivial={nontrivial}", if fails.is_empty() { "PASS" } else { "DONE" }, valid - accepted);
             if !fails.is_empty() { std::process::exit(1); }
         }
+        Some("enumerate-trace") => {
+            // used only after `enumerate` died: prints every table BEFORE running it, so the last line names the culprit
+            let name = &args[2];
+            let (nmax, alphabet, ops, nchk) = bounds(name).expect("unknown schema");
+            let nmax = args.get(3).and_then(|s| s.parse().ok()).map(|x: usize| x.min(nmax)).unwrap_or(nmax);
+            let mut od = Odometer::new(nmax, alphabet, ops, nchk);
+            while od.next() {
+                let t = od.t;
+                if !is_valid(name, &t) { continue; }
+                println!("T-RUN {} kv={}", describe(&t), tables_kv(&t));
+                let _ = std::panic::catch_unwind(|| run(name, &t));
+            }
+            println!("T-TRACE-DONE");
+        }
         Some("replay") => {
             let name = &args[2];
             let t = tables_from_kv(&args[3..]);
